@@ -10,6 +10,23 @@
 // lost writes, short / failing reads; explicit fault records (task, kind, n-th call) generated from the seed);
 // at-rest damage (truncation, field-targeted corruption with the header hash recomputed, byte flips, files that
 // never were a dump) is done by the harness directly on the file between dump and print.
+//
+// Generator tokens (SIMK_AVOID, comma separated; each switches off the stimulus group that triggers one finding, see
+// findings/known_findings.txt and replays/C15/known-B*.json, replays/C11/known-B*.json):
+//   fmt-percent-literal       formats containing "%%"                                   (B1, C15)
+//   fmt-precision-sticks      "%.Ns" followed by another %s in the same format          (B2, C15)
+//   text-longer-than-511      formatted text of 511 characters or more                  (B3, C15 + C11)
+//   string-after-overflow     a %s after a %s that already filled the line              (B4, C15 + C11)
+//   line-length-above-512     QB_LOG_CONF_MAX_LINE_LEN above QB_LOG_MAX_LEN             (B5, C15 + C11)
+//   line-length-below-notice  QB_LOG_CONF_MAX_LINE_LEN below the "too long" notice (78) (B6, C15 + C11)
+//   truncated-inside-header   files cut inside the ring header words                    (B7, C15)
+//   read-fault                short / failing reads while printing                      (B7, C15)
+//   pointer-beyond-words      read_pt / write_pt at or beyond word_size                 (B8, C15)
+//   damage-chunk-words        chunk length / magic words changed                        (B9, C15)
+//   damage-format-bytes       conversions planted in the stored format string           (B9, C15)
+//   damage-flips              random byte flips, bytes appended after a truncation      (B9, C15)
+//   record-at-buffer-limit    a chunk as long as the printer's read buffer              (B10, C15)
+//   damage-record-fields, damage-header    (no finding attached; available for triage)
 #define SIMK_NO_RENAME 1
 #include "../simk/simk_rename.h"
 #include "../simk/simk.h"
@@ -63,34 +80,36 @@ static int p_wrapped, p_overlong, p_overlong_notice, p_dump_ok, p_dump_failed, p
 static void init(const char *prop)
 {
 	which = atoi(prop + 1);
+	// probes of the fault program mean nothing in the fault-free C11 part: there they are filed as plain statistics
+	const char *RB = which == 11 ? "stat" : "probe";
 	p_wrapped = counter_id("probe", "dump_of_wrapped_ring_records_overwritten");
 	p_overlong = counter_id("probe", "overlong_message_logged");
 	p_overlong_notice = counter_id("probe", "overlong_message_replaced_by_notice");
 	p_dump_ok = counter_id("probe", "dump_written_completely");
-	p_dump_failed = counter_id("probe", "dump_returned_error_under_fault");
-	p_dump_damaged_by_fault = counter_id("probe", "dump_reported_success_but_fault_damaged_file");
+	p_dump_failed = counter_id(RB, "dump_returned_error_under_fault");
+	p_dump_damaged_by_fault = counter_id(RB, "dump_reported_success_but_fault_damaged_file");
 	p_second_dump = counter_id("probe", "second_dump_after_more_logging");
 	p_empty_dump = counter_id("probe", "dump_of_empty_blackbox");
 	p_print_pristine = counter_id("probe", "print_of_pristine_dump_checked");
-	p_print_damaged_ok = counter_id("probe", "print_of_damaged_file_returned_success");
-	p_print_damaged_err = counter_id("probe", "print_of_damaged_file_returned_error");
-	p_print_garbage = counter_id("probe", "print_of_never_a_dump_file");
-	p_rehash = counter_id("probe", "header_hash_recomputed");
+	p_print_damaged_ok = counter_id(RB, "print_of_damaged_file_returned_success");
+	p_print_damaged_err = counter_id(RB, "print_of_damaged_file_returned_error");
+	p_print_garbage = counter_id(RB, "print_of_never_a_dump_file");
+	p_rehash = counter_id(RB, "header_hash_recomputed");
 	p_shmcheck = counter_id("probe", "shm_leftover_check_done");
 	p_records_checked = counter_id("probe", "records_compared_field_by_field");
 	p_internal_records = counter_id("probe", "libqb_internal_records_in_dump");
-	p_read_fault_print = counter_id("probe", "print_with_read_fault_fired");
-	p_nofile_print = counter_id("probe", "print_of_missing_file");
-	p_deep_print = counter_id("probe", "damaged_file_reached_record_decoding");
+	p_read_fault_print = counter_id(RB, "print_with_read_fault_fired");
+	p_nofile_print = counter_id(RB, "print_of_missing_file");
+	p_deep_print = counter_id(RB, "damaged_file_reached_record_decoding");
 	p_mll_set = counter_id("probe", "max_line_length_configured");
 	p_newline_stripped = counter_id("probe", "trailing_newline_record");
 	p_window = counter_id("probe", "printer_ring_placed_between_guard_regions");
-	for (int k = 0; k < D_N; k++) { std::string n = std::string("damage_") + damage_names[k]; p_damage[k] = counter_id("probe", n.c_str()); }
-	p_fw_short = counter_id("probe", "dump_write_short_fired");
-	p_fw_err = counter_id("probe", "dump_write_error_fired");
-	p_fw_lost = counter_id("probe", "dump_write_lost_fired");
-	p_fr_short = counter_id("probe", "print_read_short_fired");
-	p_fr_err = counter_id("probe", "print_read_error_fired");
+	for (int k = 0; k < D_N; k++) { std::string n = std::string("damage_") + damage_names[k]; p_damage[k] = counter_id(RB, n.c_str()); }
+	p_fw_short = counter_id(RB, "dump_write_short_fired");
+	p_fw_err = counter_id(RB, "dump_write_error_fired");
+	p_fw_lost = counter_id(RB, "dump_write_lost_fired");
+	p_fr_short = counter_id(RB, "print_read_short_fired");
+	p_fr_err = counter_id(RB, "print_read_error_fired");
 	counter_id("fault", "write_short"); counter_id("fault", "write_err"); counter_id("fault", "write_lost");
 	counter_id("fault", "read_short"); counter_id("fault", "read_err");
 }
@@ -368,7 +387,7 @@ static void gen_damage(Rng &r, Plan &p, const bool dz[D_N], bool no_ptr_range, b
 			p.add(0, K_DAMAGE, D_APPEND, r.range(1, 5000), (int64_t)(r.u64() >> 20));
 			break;
 		case D_LIMIT:
-			p.add(0, K_DAMAGE, D_LIMIT, (int64_t)r.below(8), (int64_t)r.below(8), (int64_t)r.below(6));
+			p.add(0, K_DAMAGE, D_LIMIT, (int64_t)r.below(8), (int64_t)r.below(16), (int64_t)r.below(6));
 			break;
 		}
 		return;
@@ -714,7 +733,7 @@ static void apply_damage(const Op &op_in)
 			case 0: v = 0; break; case 1: v = 1; break; case 2: v = 0xffffffffu; break; case 3: v = 0x80000000u; break;
 			case 4: v = 26; break; case 5: v = 27; break; case 6: v = 28; break; case 7: v = 1023; break; case 8: v = 1024; break;
 			case 9: v = 1025; break; case 10: v = sz + 4; break; case 11: v = sz > 4 ? sz - 4 : 0; break; case 12: v = sz + 1; break;
-			case 13: v = im.ws * 4; break; case 14: v = raw % 2048; break; default: v = raw; break;
+			case 13: v = im.ws * 4 + raw % 65 - 32; break; case 14: v = raw % 9000; break; default: v = (raw & 1) ? raw : 8192 - (raw >> 1) % 8; break;
 			}
 			im.set_word(c, v);
 		}
@@ -811,7 +830,8 @@ static void apply_damage(const Op &op_in)
 		std::vector<uint32_t> cs = im.chunks();
 		if (cs.empty()) break;
 		uint32_t c = cs[(size_t)op.a[1] % cs.size()];
-		uint32_t sz = 2 * QB_LOG_MAX_LEN - (uint32_t)(op.a[2] % 8);
+		// (the buffer is 2 * QB_LOG_MAX_LEN today; a printer that accepts QB_LOG_ABSOLUTE_MAX_LEN lines needs 2 * that)
+		uint32_t sz = ((op.a[2] & 8) ? 2 * QB_LOG_ABSOLUTE_MAX_LEN : 2 * QB_LOG_MAX_LEN) - (uint32_t)(op.a[2] % 8);
 		static const uint32_t back[] = { 27, 26, 33, 35, 0, 13 };
 		uint32_t fnv = sz - back[op.a[3] % 6];
 		im.set_word(c, sz);
